@@ -51,7 +51,10 @@ OUTCOMES = ["success", "failure", "error", "skip", "xfail", "uxsuccess"]
 BAD = {"failure", "error", "uxsuccess"}
 STACKS = ["TestResult", "TextTestResult", "Multi[real,real]", "Multi[real,text,ext]", "Multi[Multi[real],real]",
           "Multi[twisted,real]", "TFR[real]", "TFR[text]", "E2O[real]", "E2O[Multi[real,real]]",
-          "Decorator[real]", "Tagger[Multi[real,text]]", "Decorator[TFR[real]]", "E2S"]
+          "Decorator[real]", "Tagger[Multi[real,text]]", "Decorator[TFR[real]]", "E2S",
+          # a multiplexer whose sinks do not agree on unexpected successes (the stream decorator keeps Python 2.7's
+          # reading): the multiplexer is one of testtools' own results, its verdict is the conjunction
+          "Multi[real,E2S]", "Multi[E2S,text]"]
 
 
 class Built:
@@ -107,6 +110,10 @@ def build(name, leaf_failfast):
         "Tagger[Multi[real,text]]": lambda: testtools.Tagger(testtools.MultiTestResult(real(), text()), {"t"}, set()),
         "Decorator[TFR[real]]": lambda: testtools.TestResultDecorator(
             testtools.ThreadsafeForwardingResult(real(), sem())),
+        "Multi[real,E2S]": lambda: testtools.MultiTestResult(
+            real(), testtools.ExtendedToStreamDecorator(recorders.StreamRecorder())),
+        "Multi[E2S,text]": lambda: testtools.MultiTestResult(
+            testtools.ExtendedToStreamDecorator(recorders.StreamRecorder()), text()),
     }
     if name == "E2S":
         b.sink = recorders.StreamRecorder()
@@ -331,6 +338,50 @@ def x_stream_replay(ctx, case):
     return True
 
 
+def x_classfail(ctx, case):
+    """A problem reported WITHOUT a started test - what a plain unittest.TestSuite does when setUpClass (or
+    setUpModule) fails: addError(<holder>, exc_info), no startTest.  It counts like any other error: verdict
+    false, FAILED with the right total, one section for it - also when it is the only thing the run reports."""
+    import testtools
+
+    class Broken(testtools.TestCase):
+        @classmethod
+        def setUpClass(cls):
+            raise RuntimeError("setUpClass failed <<CLS>>")
+
+        def test_a(self):
+            pass
+
+        def test_b(self):
+            pass
+    others = [make_test(i, o, "testcase") for i, o in enumerate(case["others"])]
+    broken = [Broken("test_a"), Broken("test_b")][:case["broken_tests"]]
+    tests = broken + others if case["broken_first"] else others + broken
+    stream = io.StringIO()
+    leaf = testtools.TextTestResult(stream, failfast=case["failfast"])
+    top = {"text": lambda: leaf, "multi": lambda: testtools.MultiTestResult(leaf, testtools.TestResult()),
+           "e2o": lambda: testtools.ExtendedToOriginalDecorator(leaf)}[case["stack"]]()
+    top.startTestRun()
+    unittest.TestSuite(tests).run(top)
+    top.stopTestRun()
+    text = stream.getvalue()
+    first_bad = next((k for k, t in enumerate(tests) if t in broken or case["others"][others.index(t)] in BAD), None)
+    ran_tests = tests if not (case["failfast"] and first_bad is not None) else tests[:first_bad + 1]
+    problems = (1 if any(t in broken for t in ran_tests) else 0) + sum(
+        1 for t in ran_tests if t in others and case["others"][others.index(t)] in BAD)
+    started = sum(1 for t in ran_tests if t in others)
+    ran = re.findall(r"\nRan (\d+) tests? in ", text)
+    sections = re.findall(r"^(ERROR|FAIL|UNEXPECTED SUCCESS): ?(.*)$", text, re.M)
+    last = text.rstrip().splitlines()[-1] if text.strip() else ""
+    ok = (leaf.wasSuccessful() == (problems == 0) and top.wasSuccessful() == (problems == 0) and ran == [str(started)]
+          and len(sections) == problems and ("<<CLS>>" in text) == any(t in broken for t in ran_tests)
+          and (last == "OK" if problems == 0 else last.startswith("FAILED (failures=%d" % problems)))
+    ctx.check(ok, "text.summary-agrees",
+              lambda: {"case": case, "wasSuccessful": leaf.wasSuccessful(), "Ran": ran, "want started": started,
+                       "sections": sections, "problems": problems, "last line": last, "tail": text[-400:]})
+    return True
+
+
 def x_concurrent_abort(ctx, case):
     """stop() must reach the workers' results when a concurrent suite's run() is aborted by an interrupt in the
     calling thread (the machinery - controlled scheduler, interrupt injection - is C13's)."""
@@ -389,7 +440,12 @@ def x_run(ctx, case):
             def __init__(self, verbosity=None, failfast=None, buffer=None):
                 super().__init__(verbosity=verbosity, failfast=failfast, buffer=buffer, stdout=out)
         runner = {"no_tb_locals": NoTbLocals, "prior": Prior}.get(case.get("runner_class"))
-        prog = TestProgram(module=mod, argv=argv, stdout=out, testRunner=runner)
+        if case.get("runner_class") == "via_main":
+            # the way `python -m testtools.run` comes in: run.main(argv, stdout), tests named by dotted path
+            from testtools import run as run_module
+            run_module.main(argv[:-1] + [modname + ".test_suite"], out)
+        else:
+            prog = TestProgram(module=mod, argv=argv, stdout=out, testRunner=runner)
     except SystemExit as e:
         code = e.code
     finally:
@@ -482,6 +538,7 @@ def x_subprocess(ctx, case):
 
 
 SUBCHECKS = {"hist": x_hist, "run": x_run, "subprocess": x_subprocess, "stream_replay": x_stream_replay,
+             "classfail": x_classfail,
              "concurrent_abort": x_concurrent_abort}
 
 
@@ -541,7 +598,7 @@ def run(ctx):
     for i in range(ctx.scale(120, 6000)):
         tests = [rng.choice(OUTCOMES) for _ in range(rng.randint(0, 5))]
         ctx.execute("run", {"tests": tests, "failfast": rng.random() < 0.3,
-                            "runner_class": rng.choice([None, None, "no_tb_locals", "prior"])})
+                            "runner_class": rng.choice([None, None, "no_tb_locals", "prior", "via_main"])})
     for kind in ("cts", "stream"):
         for at in (3, 5, 8, 11):
             for rep in range(2):
@@ -564,7 +621,14 @@ def run(ctx):
                 ctx.execute("hist", {"stack": stack, "failfast": "off", "ff_seq": seq,
                                      "segments": [{"tests": tests, "kinds": ["testcase"] * len(tests)},
                                                   {"tests": tests, "kinds": ["placeholder"] * len(tests)}]})
-    for rc in (None, "no_tb_locals", "prior"):
+    for stack in ("text", "multi", "e2o"):
+        for others in ([], ["success"], ["success", "failure"], ["error", "success"]):
+            for broken_tests in (1, 2):
+                for broken_first in (True, False):
+                    for ff in (False, True):
+                        ctx.execute("classfail", {"stack": stack, "others": others, "broken_tests": broken_tests,
+                                                  "broken_first": broken_first, "failfast": ff})
+    for rc in (None, "no_tb_locals", "prior", "via_main"):
         for ff in (True, False):
             for tests in (["failure", "success", "error"], ["success", "error", "failure"], ["uxsuccess", "success"]):
                 ctx.execute("run", {"tests": tests, "failfast": ff, "runner_class": rc})
